@@ -18,6 +18,8 @@ use crate::{
 pub const ALPN: &[u8] = b"/iroh-sync/1";
 
 mod codec;
+#[cfg(feature = "verif-hooks")]
+pub use codec::verif as codec_verif;
 
 /// Connect to a peer and sync a replica
 pub async fn connect_and_sync(
